@@ -4,5 +4,5 @@ CONSTANTS F = 3
   Variant = "leafBufReuse"
   Steps = {2}
   MaxN = 41
-INVARIANTS Valid Faithful FaithfulAnyReader Enumerates EarlyExit ReadersAgree EmptyNoTree RejectsExactly
+INVARIANTS Valid Faithful FaithfulAnyReader Enumerates EarlyExit Reentrant ReadersAgree EmptyNoTree RejectsExactly
 CHECK_DEADLOCK FALSE
